@@ -947,7 +947,8 @@ def run_xlsb_files(ctx, n, argc):
 def run_xls_files2(ctx, n, argc):
     """.xls: Lbl records of every kind (hidden, built-in, 8/16-bit names) in front of the names the
     formulas use, 3-D references through a shuffled XTI table (possibly split over two EXTERNSHEET
-    records), shared-formula members (PtgExp: known class), defined_names."""
+    records), shared-formula members (PtgExp: known class), defined_names whose formulas range over
+    the whole grammar (former known class K_XLS_NAME_FORMULA, repaired on branch c14-fixes)."""
     from props import c14_xlsfile as xf
     rng = ctx.rng
     g = Gen(ctx, "xls", argc)
@@ -975,22 +976,36 @@ def run_xls_files2(ctx, n, argc):
                 name = rng.choice(NAME_POOL)
                 wide16 = any(ord(ch) > 255 for ch in name) or rng.random() < 0.3
             ctx.count("xls:file:name:%s%s%s" % ("builtin" if fl & 32 else "plain", "+hidden" if fl & 1 else "", "+16bit" if wide16 else ""))
-            # the Lbl formula: in-domain = one absolute 3-D reference token
+            nm.append({"flags": fl, "name": name, "wide": wide16, "itab": rng.choice([0, 0, 1])})
+        g.names = [x["name"] for x in nm]
+        # the Lbl formulas (decoded after the globals loop against ALL names: a name may be defined
+        # through one stored after it): single 3-D references, any AST of the grammar, expressions
+        # over other names; a few raw token streams parse_formula rejects (first-token fallback)
+        empty_first = nn >= 3 and rng.random() < 0.35      # a formula-less name (macro / add-in function) in front
+        for i, x in enumerate(nm):
             mode = rng.random()
             ixti = rng.randrange(0, max(1, g.nixti + (1 if rng.random() < 0.1 else 0)))
-            lid = "xln%d_%d" % (k, i)
-            kn = False
-            if mode < 0.45:
+            x["lid"], x["raw"] = "xln%d_%d" % (k, i), None
+            if empty_first and i == 0:
+                ast, x["raw"] = "int 0", b""
+            elif empty_first and i == nn - 1:
+                ast = _name_biased_expr(g, rng, 1)         # … and a name defined through one stored after it
+            elif mode < 0.25:
                 ast = "ref3 r %d %d %d 0 0" % (ixti, rng.choice([0, 9, 65535, rng.randrange(65536)]), rng.choice([0, 25, 26, 255, rng.randrange(256)]))
-            elif mode < 0.8:
+            elif mode < 0.45:
                 ast = "area3 r %d %d %d 0 0 %d %d 0 0" % (ixti, rng.randrange(100), rng.randrange(30), rng.randrange(100, 65536), rng.randrange(30, 256))
-            elif mode < 0.9:
-                # relative components: inside the known class until commit 2c35987, in-domain since
+            elif mode < 0.55:
                 ast = "ref3 r %d %d %d %d %d" % (ixti, rng.randrange(100), rng.randrange(100), rng.randrange(2), 1)
+            elif mode < 0.7:
+                ast = _name_biased_expr(g, rng)
+            elif mode < 0.93:
+                ast = rng.choice(["int 7", "bin 3 ref3 r %d 1 1 0 0 int 1" % ixti, "str 0 97.98", "bool 1", g.expr(rng.choice([0, 1, 2])), g.expr(2)])
             else:
-                ast, kn = rng.choice(["int 7", "bin 3 ref3 r %d 1 1 0 0 int 1" % ixti, "str 0 97.98", "bool 1"]), True
-            ast_lines.append("%s\tptg_ast\txls\t%s\t%s" % (lid, "\t".join(g.env_args()), ast))
-            nm.append({"flags": fl, "name": name, "wide": wide16, "lid": lid, "known": kn, "itab": rng.choice([0, 0, 1])})
+                ast = "int 0"
+                x["raw"] = rng.choice([b"", b"\x1e\x07\x00\x1e\x08\x00", b"\x02\x00", b"\x3c\x00\x00", b"\x3a\x00\x00\x01\x00\x02\x00\x03",
+                                       b"\x1e\x07\x00\x03", b"\x17\x05\x00ab"])
+            ctx.count("xls:file:name_formula:%s" % ("raw" if x["raw"] is not None else ast.split()[0]))
+            ast_lines.append("%s\tptg_ast\txls\t%s\t%s" % (x["lid"], "\t".join(g.env_args()), ast))
         g.names = [x["name"] for x in nm]
         hidden = [i for i, x in enumerate(nm) if x["flags"] & (fg.LF_HIDDEN | fg.LF_BUILTIN)]
         after = hidden[0] + 1 if hidden else 0
@@ -1022,18 +1037,20 @@ def run_xls_files2(ctx, n, argc):
     model = ctx.run_model(ast_lines)
     impl_lines, meta, model_lines = [], {}, []
     for k, (snames, xtis, nm, sheets, split) in enumerate(books):
-        lbls, exp_names, mod_names, kn_names = [], [], [], False
+        lbls, exp_names = [], []
         for x in nm:
             parts = model.get(x["lid"], "").split("|")
-            rgce = bytes.fromhex(parts[0])[2:] if len(parts) == 5 else b""
-            lbls.append(fg.lbl_payload(x["flags"], x["itab"], x["name"], x["wide"], rgce))
-            text = bytes.fromhex(parts[2]).decode("utf-8") if len(parts) == 5 else ""
-            exp_names.append((x["name"], text))
-            if x["known"]:
-                kn_names = True
-                mod_names.append((x["name"], None))
+            ok = len(parts) == 5 and parts[4] == "1" and parts[3] == "-" and len(parts[0]) // 2 <= 4000
+            if x["raw"] is not None:
+                rgce, text = x["raw"], None            # outside the grammar: implementation vs model only
+            elif ok:
+                rgce, text = bytes.fromhex(parts[0])[2:], bytes.fromhex(parts[2]).decode("utf-8")
+            elif len(parts) == 5 and len(parts[0]) // 2 <= 4000:
+                rgce, text = bytes.fromhex(parts[0])[2:], None     # ill-formed AST: implementation vs model only
             else:
-                mod_names.append((x["name"], text))
+                rgce, text = b"\x1e\x07\x00", "7"
+            lbls.append(fg.lbl_payload(x["flags"], x["itab"], x["name"], x["wide"], rgce))
+            exp_names.append((x["name"], text))
         fbs, exp_sheets, has_exp, cms = [], [], False, []
         for slots in sheets:
             fl, cp, cm = [], [], []
@@ -1083,34 +1100,36 @@ def run_xls_files2(ctx, n, argc):
         model_lines.append("xl%d_e\tfenv\txls\t%s\t%s" % (k, names_arg(snames), _recs_arg(grecs)))
         for si, cm in enumerate(cms):
             model_lines.append(_fpos_line("xl%d_p%d" % (k, si), cm, keep=True))
-        meta["xl%d" % k] = (line, exp_names, [x["known"] for x in nm], exp_sheets, has_exp, xtis)
+        meta["xl%d" % k] = (line, exp_names, exp_sheets, has_exp, xtis)
     impl = ctx.run_impl(impl_lines)
     mod2 = ctx.run_model(model_lines)
-    for lid, (line, en, kn, es, has_exp, xtis) in meta.items():
+    for lid, (line, en, es, has_exp, xtis) in meta.items():
         env = mod2.get(lid + "_e", "")
-        mnames, want, kn_hit = env or "(missing)", [], False
+        mnames, mparts = env or "(missing)", []
         if env.startswith("ok:") and "|" in env:
             mnames, mx = env[3:].split("|", 1)
             if mx != ",".join("%d:%d:%d" % t for t in xtis):
                 ctx.disagreements.append({"function": "xls XTI table (FormulaEnv model vs the generator's list)", "case": line,
                                           "impl": ",".join("%d:%d:%d" % t for t in xtis), "model": mx})
             mparts = mnames.split(",") if mnames else []
-            for i, (n_, t_) in enumerate(en):
-                spec = "%s=%s" % (hx(n_), hx(t_))
-                if i >= len(mparts) or (mparts[i] != spec and not kn[i]):
-                    # outside K_XLS_NAME_FORMULA the model must give the A1 text (C14_xls_name_ref3d_absolute)
-                    ctx.disagreements.append({"function": "xls defined name outside the known class (FormulaEnv model vs render)",
-                                              "case": line, "impl": spec, "model": mparts[i] if i < len(mparts) else None})
-                elif mparts[i] != spec:
-                    kn_hit = True
-        want = ["%s=%s" % (hx(n_), hx(t_)) for (n_, t_) in en]
+        want = []
+        for i, (n_, t_) in enumerate(en):
+            if t_ is None:
+                # a token stream outside the grammar: no spec; the model's prediction stands in
+                want.append(mparts[i] if i < len(mparts) else "%s=?" % hx(n_))
+                continue
+            spec = "%s=%s" % (hx(n_), hx(t_))
+            want.append(spec)
+            if i >= len(mparts) or mparts[i] != spec:
+                # C14_defined_name_text_is_render_xls: on a well-formed AST the model gives the A1 text
+                ctx.disagreements.append({"function": "xls defined name (FormulaEnv model vs render)",
+                                          "case": line, "impl": spec, "model": mparts[i] if i < len(mparts) else None})
         for si, e in enumerate(es):
             m = mod2.get("%s_p%d" % (lid, si))
             if m != e[1]:
                 ctx.disagreements.append({"function": "formula_range (FormulaEnv model vs expansion of the generator)", "case": line,
                                           "impl": e[1], "model": m})
-        _check_book(ctx, "xls", line, impl.get(lid), ",".join(want), es, KNOWN_PTGEXP if has_exp else None, model_names=mnames,
-                    known_names=KNOWN_XLS_NAME if kn_hit else None)
+        _check_book(ctx, "xls", line, impl.get(lid), ",".join(want), es, KNOWN_PTGEXP if has_exp else None, model_names=mnames)
     ctx.extra["generated_xls_files"] = len(books)
     return meta, impl
 
